@@ -1,0 +1,37 @@
+//go:build verif
+
+package mpc
+
+// Contracts for the deductive checker in /verif (comment-only; compiled only under the verif tag).
+//
+// A key shard is only ever constructed (and only ever decoded) through NewBaseShard, which succeeds only if the
+// private share, lifted to the group, equals the public key share that the verification vector and the MSP
+// assign to the share's holder.
+
+//@ func NewBasePublicMaterial
+//@   property C03, C12
+//@   purefn
+//@   requires wfVVin(fv) && (mspMatrix != nil ==> wfM(mspMatrix.Matrix()))
+//@   ensures true
+
+//@ func NewBaseShard
+//@   property C03, C12, C04
+//@   bind E group, PrimeGroup groupS
+//@   purefn
+//@   requires wfVVin(fv) && (mspMatrix != nil ==> wfM(mspMatrix.Matrix()))
+//@   let bpm = NewBasePublicMaterial(mspMatrix, fv)
+//@   let pks = res(bpm, 0).PublicKeyShares().Get(share.ID())
+//@   let lifted = feldman.LiftShare(share, ggen())
+//@   ensures err == nil ==> share != nil && res(bpm, 1) == nil
+//@   ensures err == nil ==> res(pks, 1)
+//@   ensures err == nil ==> res(lifted, 1) == nil && res(lifted, 0).Equal(res(pks, 0))
+//@   ensures err == nil ==> result != nil && result.share == share
+
+// Decoding validates like construction: a BaseShard is accepted only if NewBaseShard accepts its decoded parts.
+//@ func (*BaseShard).UnmarshalCBOR
+//@   property C12, C03
+//@   let dto = as(res(serde.UnmarshalCBOR(data), 0), *baseShardDTO)
+// assumed (free): the decoded components satisfy the representation invariants their own decoders establish
+//@   free requires wfVVin(dto.PM.VerificationVector()) && (dto.PM.MSP() != nil ==> wfM(dto.PM.MSP().Matrix()))
+//@   ensures err == nil ==> res(NewBaseShard(dto.Share, dto.PM.VerificationVector(), dto.PM.MSP()), 1) == nil
+//@   ensures err == nil ==> sh.share == dto.Share
